@@ -378,3 +378,53 @@ package multiparty
 //@ afunc EvaluationKeyGenCRP.BaseTwoDecompositionVectorSize
 //@   trusted opaque at the abstract level: a new slice with the number of power-of-two digits of every RNS component (reads only)
 //@   assigns
+
+// A decoder stores what it decodes in the caller's object (C08; finding F41): see /verif/cmd/lvc/fieldordercheck.go
+//@ decodes EvaluationKeyGenShare.ReadFrom
+//@   property C08
+//
+//@ decodes EvaluationKeyGenShare.UnmarshalBinary
+//@   property C08
+//
+//@ decodes GaloisKeyGenShare.ReadFrom
+//@   property C08
+//
+//@ decodes GaloisKeyGenShare.UnmarshalBinary
+//@   property C08
+//
+//@ decodes KeySwitchShare.ReadFrom
+//@   property C08
+//
+//@ decodes KeySwitchShare.UnmarshalBinary
+//@   property C08
+//
+//@ decodes PublicKeyGenShare.ReadFrom
+//@   property C08
+//
+//@ decodes PublicKeyGenShare.UnmarshalBinary
+//@   property C08
+//
+//@ decodes PublicKeySwitchShare.ReadFrom
+//@   property C08
+//
+//@ decodes PublicKeySwitchShare.UnmarshalBinary
+//@   property C08
+//
+//@ decodes RefreshShare.ReadFrom
+//@   property C08
+//
+//@ decodes RefreshShare.UnmarshalBinary
+//@   property C08
+//
+//@ decodes RelinearizationKeyGenShare.ReadFrom
+//@   property C08
+//
+//@ decodes RelinearizationKeyGenShare.UnmarshalBinary
+//@   property C08
+//
+//@ decodes ShamirSecretShare.ReadFrom
+//@   property C08
+//
+//@ decodes ShamirSecretShare.UnmarshalBinary
+//@   property C08
+//
